@@ -21,6 +21,10 @@ RULE = ("every DAG(n) n<=4 with every disjoint (L,S) (3^n assignments) and every
         "(falsy) - label 0 is a node of every case. boundary stream: the empty graph (fresh / emptied in place by remove_nodes_from with "
         "a duplicate in the bulk argument), isolated nodes only (n<=5) with L or S = all nodes, L and S omitted instead of explicit "
         "empty sets, a node dropped in place after a warm-up, and x == y / absent x or y (ValueError as the code documents). "
+        "nested labels: two nodes labelled by the pair / frozenset of the labels of two other adjacent nodes (a fixed 8-node shape under 24 "
+        "relabellings + 300 random graphs). dense stream: 250 random DAGs/ADMGs with 6-8 nodes and edge density 0.7-0.9. deep stream: "
+        "chains and bidirected collider chains of 150-300 nodes with latent forks, 120 frames of recursion head-room (inducing_path only; "
+        "its DFS depth is the length of the explored path, kept <= 4 by the shapes). identity-hashed label objects (family obj). "
         "argument integrity on every case: graph snapshot and the L, S objects (the same two objects for all calls) unchanged")
 EXHAUSTIVE = {"quick": "DAG(n) x all disjoint (L,S) x all ordered pairs, n<=4 (n<=3 under all 7 label families); ADMG(n) n<=3 likewise",
               "thorough": "same as quick, plus every DAG(5) with 6 seeded (L,S)"}
@@ -186,14 +190,31 @@ def argkind_cases(tier, rng):
 
 def build(case, g):
     """ADMG for g under the case's label family; case["_falsy"] = [node, kind] relabels that node "" / ()"""
-    if not case.get("_falsy"):
+    if not case.get("_falsy") and not case.get("_nest"):
         return gr.to_admg(g, case)
     from pywhy_graphs import ADMG
-    node, kind = case["_falsy"]
     flab, finv = gr.labeler(case)
-    special = "" if kind == "str" else ()
-    lab = lambda v: special if v == node else flab(v)          # noqa: E731
-    inv = lambda t: node if (t == special and type(t) is type(special)) else finv(t)   # noqa: E731
+    if case.get("_nest"):
+        # NESTED labels: node v is labelled by the pair (tuple) / frozenset of the labels of two OTHER nodes u, w
+        nest = {int(v): spec for v, spec in case["_nest"].items()}
+
+        def lab(v):
+            if v in nest:
+                kind, u, w = nest[v]
+                return (flab(u), flab(w)) if kind == "tuple" else frozenset({flab(u), flab(w)})
+            return flab(v)
+        table = {}
+
+        def inv(t):
+            if not table:
+                for v in set(case["g"]["V"]) | set((case.get("g0") or case["g"])["V"]):
+                    table[lab(v)] = v
+            return table[t]
+    else:
+        node, kind = case["_falsy"]
+        special = "" if kind == "str" else ()
+        lab = lambda v: special if v == node else flab(v)          # noqa: E731
+        inv = lambda t: node if (t == special and type(t) is type(special)) else finv(t)   # noqa: E731
     A = ADMG()
     for v in gr.ordered(case, g["V"], "V"):
         A.add_node(lab(v))
@@ -230,9 +251,109 @@ def boundary_cases(tier, rng):
                 yield c
 
 
+def nest_cases(tier, rng):
+    """NESTED label stream: some node labels are the pair (tuple) or the frozenset of the labels of two other, adjacent nodes
+    (a search that stores step pairs (prev, cur) next to node labels confuses them).  First the shape 5 <- U <- 6 -> 4 -> T -> 9,
+    6 -> 2, 4 -> 3 with L = {6, 4, T, U}, T = (6, 2), U = (4, 3) under relabellings, then random graphs."""
+    # nodes: 0:'5' 1:U 2:'6' 3:'4' 4:T 5:'9' 6:'2' 7:'3'
+    w = gr.G(range(8), D=[(1, 0), (2, 1), (2, 3), (3, 4), (4, 5), (2, 6), (3, 7)])
+    for j in range(24 if tier == "quick" else 120):
+        perm = list(range(8))
+        if j:
+            rng.shuffle(perm)
+        h = gr.relabel(w, lambda v: perm[v])
+        if j % 2:
+            h["V"] = sorted(h["V"])
+        for kind in ("tuple", "frozenset"):
+            c = mk("nest-w", h, [perm[v] for v in (2, 3, 4, 1)], [], True, oracle=False)
+            c["_nest"] = {str(perm[4]): [kind, perm[2], perm[6]], str(perm[1]): [kind, perm[3], perm[7]]}
+            yield c
+    for i in range(300 if tier == "quick" else 3000):
+        n = rng.randint(6, 8)
+        dag = rng.random() < 0.6
+        g = gr.random_kinds_graph(rng, n, gr.DAG_KINDS if dag else ["none", "->", "<-", "<->"], p_edge=rng.choice([0.3, 0.45]))
+        edges = [e for k in "DB" for e in g[k]]
+        if len(edges) < 2:
+            continue
+        nest, used = {}, set()
+        for _ in range(rng.randint(1, 3)):
+            u, v2 = rng.choice(edges)
+            if rng.random() < 0.5:
+                u, v2 = v2, u
+            cand = [t for t in g["V"] if t not in (u, v2) and t not in nest and t not in used]
+            if not cand or (u, v2) in [(a, b) for _, a, b in nest.values()]:
+                continue
+            t = rng.choice(cand)
+            if any(t in (a, b) for _, a, b in nest.values()):
+                continue
+            nest[t] = [rng.choice(("tuple", "tuple", "frozenset")), u, v2]
+            used.update((u, v2))
+        if not nest or len({(k2, frozenset((a, b))) if k2 == "frozenset" else (k2, a, b) for k2, a, b in nest.values()}) < len(nest):
+            continue
+        a = [rng.choice((0, 1, 1, 1, 2)) for _ in g["V"]]
+        obs_ = rng.sample(g["V"], 2)
+        c = mk("nest-rand", g, [v for v in g["V"] if a[v] == 1 and v not in obs_], [v for v in g["V"] if a[v] == 2 and v not in obs_],
+               dag, oracle=False)
+        c["_nest"] = {str(t): spec for t, spec in nest.items()}
+        yield c
+
+
+def dense_cases(tier, rng):
+    """dense random graphs (edge density 0.7-0.9) with 6-8 nodes"""
+    for i in range(250 if tier == "quick" else 2500):
+        n = rng.randint(6, 8)
+        dag = rng.random() < 0.5
+        g = gr.random_kinds_graph(rng, n, gr.DAG_KINDS if dag else ["none", "->", "<-", "<->"], p_edge=rng.choice([0.7, 0.8, 0.9]))
+        a = [rng.choice((0, 0, 1, 1, 1, 2)) for _ in g["V"]]
+        yield mk("dense-dag" if dag else "dense-admg", g, [v for v in g["V"] if a[v] == 1], [v for v in g["V"] if a[v] == 2],
+                 dag, oracle=(n <= 6))
+
+
+def deep_cases(tier, rng):
+    """DEEP stream: long chains / collider chains (150-300 nodes) with side branches, run with 120 frames of head-room.
+    inducing_path's DFS legitimately recurses once per node of the path it explores, so the shapes keep every explored path
+    short (observed chain nodes block, latent side branches have length <= 3); everything else (ancestors, neighbours,
+    sub-graph construction) must not recurse per node.  Only inducing_path is judged (dag_to_mag would need n^2 searches)."""
+    for n in (150, 220, 300):
+        D = [(i, i + 1) for i in range(n - 1)]
+        side, L = n, []
+        for i in range(5, n - 5, 37):                 # latent forks i <- l -> i+2 and latent 2-chains
+            D += [(side, i), (side, i + 2)]
+            L.append(side)
+            side += 1
+        g = gr.G(range(side), D=D)
+        qs = [[0, 1], [0, n - 1], [n - 1, 0], [5, 7], [7, 5], [42, 44], [6, 40], [n // 2, n // 2 + 1]]
+        c = {"kind": "deep-chain", "g": g, "L": L, "S": [n - 1], "qs": qs, "dag": False, "oracle": False, "_reclimit": 120}
+        yield c
+        B = [(i, i + 1) for i in range(n - 1)]       # long collider chain: every inner node a collider, ancestor of the far end
+        g2 = gr.G(range(n), D=[(i, n - 1) for i in range(1, n - 2, 50)], B=B)
+        yield {"kind": "deep-bi", "g": g2, "L": [], "S": [], "qs": [[0, 2], [0, n - 1], [1, 3], [n - 3, n - 1]], "dag": False,
+               "oracle": False, "_reclimit": 120}
+
+
+def obj_cases(tier, rng):
+    """identity-hashed label objects (graphs.labeler family "obj")"""
+    for g in gr.enum_dag(3):
+        for L, S in rng.sample(list(all_ls(g["V"])), 4):
+            c = mk("obj3", g, L, S, True)
+            c["_lab"] = "obj"
+            yield c
+    for i in range(60):
+        n = rng.randint(4, 7)
+        g = gr.random_kinds_graph(rng, n, ["none", "->", "<-", "<->"], p_edge=0.4)
+        a = [rng.choice((0, 0, 1, 1, 2)) for _ in g["V"]]
+        c = mk("obj-rand", g, [v for v in g["V"] if a[v] == 1], [v for v in g["V"] if a[v] == 2], not g["B"], oracle=False)
+        c["_lab"] = "obj"
+        yield c
+
+
 def gen_cases(tier, rng):
     quick = tier == "quick"
     yield from boundary_cases(tier, rng)
+    yield from nest_cases(tier, rng)
+    yield from dense_cases(tier, rng)
+    yield from deep_cases(tier, rng)
+    yield from obj_cases(tier, rng)
     yield from repeat_cases(tier, rng)
     yield from size_cases(tier, rng)
     yield from argkind_cases(tier, rng)
@@ -382,9 +503,15 @@ def nontrivial(case, model):
     return any(r[0] and len(r[1]) > 2 for r in model["ind"])
 
 
+def json_key(x):
+    import json
+    return json.dumps(x, sort_keys=True)
+
+
 def key(case):
     return (gr.canon(case["g"]), gr.canon(case["g0"]) if case.get("g0") else None, tuple(case["L"]), tuple(case["S"]),
-            case.get("_lab", "int"), case.get("_argkind"), tuple(case.get("_falsy") or ()), case.get("_order"))
+            case.get("_lab", "int"), case.get("_argkind"), tuple(case.get("_falsy") or ()), case.get("_order"),
+            json_key(case.get("_nest")))
 
 
 def shrink_repeat(case):
